@@ -483,10 +483,48 @@ def gen_errtexts(out):
                coq_list('(%d%%Z, %s)' % (c, coq_str('%d %s' % (c, http.client.responses[c]))) for c in codes))
 
 
+def gen_passthrough(out):
+    """ombott.py: the `except <classes>: raise` clauses of Ombott._handle, Ombott._cast and Ombott.wsgi — the
+    exception classes that are passed on to the server instead of becoming an error page (cluster wsgiD1, C03).
+    The classes may be written as a tuple of names, one name, or the name of a module-level tuple constant."""
+    tree, _ = parse('ombott/ombott.py')
+    cls = find_class(tree, 'Ombott')
+
+    def names_of(node):
+        if isinstance(node, ast.Tuple):
+            out_ = []
+            for e in node.elts:
+                out_ += names_of(e)
+            return out_
+        if isinstance(node, ast.Attribute):
+            return [node.attr]
+        if isinstance(node, ast.Name):
+            try:
+                return names_of(module_assign(tree, node.id))      # a module-level constant naming the tuple
+            except Shape:
+                return [node.id]
+        raise Shape('pass-through clause: unsupported exception expression %s' % ast.dump(node)[:80])
+
+    out.append('(* ombott.py: exception classes re-raised by the bare `except ...: raise` clauses (by class name; an '
+               'except clause also matches subclasses) *)')
+    for fname in ('_handle', '_cast', 'wsgi'):
+        fn = find_func(cls, fname)
+        found = []
+        for n in ast.walk(fn):
+            if isinstance(n, ast.ExceptHandler) and n.type is not None and len(n.body) == 1 \
+                    and isinstance(n.body[0], ast.Raise) and n.body[0].exc is None:
+                found.append(names_of(n.type))
+        if len(found) != 1:
+            raise Shape('%s: expected exactly one `except ...: raise` clause, found %d' % (fname, len(found)))
+        out.append('Definition passthrough_%s : list (list N) := %s.'
+                   % (fname.strip('_'), coq_list(coq_str(x) for x in found[0])))
+
+
 def generate():
     out = ['(* GENERATED by tools/gen_constants.py from the current working tree of the repository - do not edit *)',
            'From Coq Require Import List ZArith NArith.', 'Import ListNotations.', '']
-    for g in (gen_response, gen_ombott, gen_helpers, gen_errpage, gen_router, gen_body, gen_request, gen_errtexts):
+    for g in (gen_response, gen_ombott, gen_helpers, gen_errpage, gen_router, gen_body, gen_request, gen_errtexts,
+              gen_passthrough):
         g(out)
         out.append('')
     return '\n'.join(out)
